@@ -92,6 +92,27 @@ def conclude(pid, tier, level, histories, failures, rerun, coverage, t0, assumpt
     return 0
 
 
+def replay_one(pid, replay, rerun):
+    """--replay: run one recorded history again; known findings are reported as such."""
+    hist = [json.loads(l) for l in open(replay) if l.strip()]
+    fails = rerun(hist)
+    known = vc.load_known()
+    firsts = vtrace.first_failures(fails, pid)
+    rc = 0
+    for hi, f in firsts.items():
+        cmd = hist[f.step] if 0 <= f.step < len(hist) else None
+        kf = match_known(pid, f, cmd, known)
+        if kf:
+            print("KNOWN-FINDING: property=%s %s: %s" % (pid, kf["id"], kf.get("desc", "")))
+        else:
+            print("VIOLATION property=%s replay=%s" % (pid, replay))
+            print("  what=%s at step %d (%s)" % (f.what, f.step, f.event))
+            rc = 1
+    if rc == 0:
+        print("OK replay holds")
+    return rc
+
+
 def sample_histories(histories, n=3, maxlen=14):
     out = []
     for h in histories[:n]:
@@ -353,3 +374,85 @@ def _load_plugins():
     import glob, importlib
     for p in sorted(glob.glob(os.path.join(os.path.dirname(os.path.abspath(__file__)), "checks_*.py"))):
         importlib.import_module(os.path.basename(p)[:-3])
+
+
+# ------------------------------------------------------------------ Sequencer family (C07 C08 C09)
+import gen_seq
+
+SEQ_ASSUME = ["songs are generated from the integral-tempo family (one tick = whole microseconds) so reference times are exact",
+              "track attribution of delivered events through channel = track number and tagged meta/sysex payloads",
+              "harness/drive_seq.cpp encodes abstract songs to SMF bytes (trusted encoder, ~60 lines)"]
+
+
+def run_seq_family(pid, tier, replay, make_histories):
+    t0 = time.time()
+    rng = random.Random(vc.seed() * 7919 + sum(map(ord, pid)))
+
+    def rerun(hist):
+        f, _, _ = vtrace.run_histories(pid + "r", "drive_seq", "SeqTrace", [hist], nchunks=1)
+        return f
+
+    if replay:
+        return replay_one(pid, replay, rerun)
+    histories = make_histories(rng, tier)
+    failures, counters, stats = vtrace.run_histories(pid, "drive_seq", "SeqTrace", histories, tlc_timeout=1500)
+    if stats["infra"]:
+        print("INFRA:", stats["infra"][0][:2000])
+        return 3
+    mruns = seq_model_phase(pid, tier)
+    coverage = {
+        "states": sum(r.distinct for r in mruns), "transitions": sum(r.generated for r in mruns),
+        "traces_validated_against_impl": len(histories), "records_validated": stats["records"],
+        "monitor_counters": counters,
+        "samples": [[{k: v for k, v in c.items() if k != "tracks"} if c.get("e") == "Song" else c for c in h] for h in histories[:2]] +
+                   [h[1] for h in histories[:1]],
+        "evaluations": counters.get("events", 0), "distinct_nontrivial": len(histories),
+        "rule": "one evaluation per delivered event; every history is a distinct generated song with its own playback configuration",
+        "model_runs": [{"scope": getattr(r, "scope", {}), "ok": r.ok, "violation": r.violation, "distinct": r.distinct,
+                        "generated": r.generated, "wall_s": round(r.wall, 1)} for r in mruns],
+        "exhaustive": False,
+    }
+    for r in mruns:
+        if r.violation or not r.ok:
+            print("MODEL-DRIFT: %s reports %s" % (getattr(r, "scope", {}), r.violation or ("rc=%s" % r.rc)))
+    level = "model_checking" if coverage["states"] > 0 else "exploration"
+    return conclude(pid, tier, level, histories, failures, rerun, coverage, t0, SEQ_ASSUME)
+
+
+def seq_model_phase(pid, tier):
+    """Leg (A): exhaustive model checking of spec/SeqMC (if present)."""
+    if not os.path.exists(os.path.join(vc.SPEC, "SeqMC.tla")):
+        return []
+    runs = []
+    for name in (["quick"] if tier == "quick" else ["quick", "thorough"]):
+        cfg = os.path.join(vc.SPEC, "SeqMC_%s.cfg" % name)
+        if os.path.exists(cfg):
+            r = vc.run_tlc("SeqMC", cfg=os.path.basename(cfg), timeout=2400, heap="16g", tag="SeqMC-" + pid)
+            r.scope = {"cfg": name}
+            runs.append(r)
+    return runs
+
+
+@register("C07")
+def check_c07(pid, tier, replay):
+    def mk(rng, tier):
+        n = 260 if tier == "quick" else 3000
+        hs = []
+        for i in range(n):
+            song = gen_seq.random_song(rng, maxev=10 if tier == "quick" else 24,
+                                       ntracks=None if tier == "quick" else rng.choice([1, 2, 3, 4, 6, 8]))
+            hs.append(gen_seq.play_history(rng, song, rng.choice(["plain", "plain", "gating"])))
+        return hs
+    return run_seq_family(pid, tier, replay, mk)
+
+
+@register("C09")
+def check_c09(pid, tier, replay):
+    def mk(rng, tier):
+        n = 220 if tier == "quick" else 2500
+        hs = []
+        for i in range(n):
+            song = gen_seq.random_song(rng, maxev=8 if tier == "quick" else 16, loops="random" if rng.random() < 0.85 else "none")
+            hs.append(gen_seq.play_history(rng, song, "loop" if rng.random() < 0.9 else "plain"))
+        return hs
+    return run_seq_family(pid, tier, replay, mk)
